@@ -5,6 +5,7 @@ package main
 // function+site, so the order of sites does not matter).
 
 import (
+	"go/constant"
 	"fmt"
 	"go/types"
 	"sort"
@@ -199,4 +200,91 @@ func ruleMarkDiscipline(p *Prog, r *Report, rule, prop, pkg string, fields []str
 			"a planner mark (which device object is kept / which target object is already on the device) is set at a place that was never audited: the planner can keep, reuse or drop an object under unchecked conditions")
 	}
 	r.floor(rule, "stores into mark fields of package "+pkg, n, floor)
+}
+
+// normaliserConsts: the constants (strings and integers other than 0/1) a function's
+// instructions use as operands, with multiplicity, sorted.
+func normaliserConsts(fn *ssa.Function) []string {
+	var out []string
+	var visit func(f *ssa.Function)
+	visit = func(f *ssa.Function) {
+		for _, b := range f.Blocks {
+			for _, in := range b.Instrs {
+				if _, isPhi := in.(*ssa.Phi); isPhi {
+					// a constant flowing into a phi is counted once at the phi
+				}
+				for _, op := range in.Operands(nil) {
+					if op == nil || *op == nil {
+						continue
+					}
+					c, ok := (*op).(*ssa.Const)
+					if !ok || c.Value == nil {
+						continue
+					}
+					switch c.Value.Kind() {
+					case constant.String:
+						out = append(out, c.Value.ExactString())
+					case constant.Int:
+						if n, exact := constant.Int64Val(c.Value); exact && n != 0 && n != 1 && n != -1 {
+							out = append(out, c.Value.ExactString())
+						}
+					}
+				}
+			}
+		}
+		for _, a := range f.AnonFuncs {
+			visit(a)
+		}
+	}
+	visit(fn)
+	sort.Strings(out)
+	return out
+}
+
+// ruleNormaliserConsts: a normaliser rewrites compare operands; which spellings it
+// equates is in its conditions (guard rows) and in the constants it cuts, trims and
+// substitutes.  The constants are compared, as a multiset, with tables/normaliser_consts.tsv.
+func ruleNormaliserConsts(p *Prog, r *Report, rule, prop string) {
+	n := 0
+	for _, row := range readTable("normaliser_consts.tsv", 4) {
+		if !propListed(row[1], prop) {
+			continue
+		}
+		n++
+		fn := p.Funcs[row[0]]
+		if fn == nil {
+			r.fail(rule, "consts|"+row[0], "", "function "+row[0]+" not found", "the audited normaliser no longer exists under this name: re-audit")
+			continue
+		}
+		got := strings.Join(normaliserConsts(fn), " | ")
+		r.add(rule, "consts|"+row[0], p.pos(fn.Pos()), fmt.Sprintf("the constants %s works with are the audited ones (%s)", row[0], row[3]), got == row[2],
+			fmt.Sprintf("the normaliser cuts, trims or substitutes other constants than audited: two device spellings that are not equivalent may compare equal.\n   audited: %s\n   now:     %s", row[2], got))
+	}
+	r.floor(rule, "audited normalisers for "+prop, n, 1)
+	// every operation of a normaliser is at an audited site
+	have := map[string]bool{}
+	for _, row := range readTable("guards.tsv", 5) {
+		if propListed(row[3], prop) {
+			have[row[0]+"|"+row[1]] = true
+		}
+	}
+	for _, row := range readTable("normaliser_consts.tsv", 4) {
+		fn := p.Funcs[row[0]]
+		if fn == nil || !propListed(row[1], prop) {
+			continue
+		}
+		seen := map[string]bool{}
+		sites := 0
+		for _, gs := range guardSitesOf(p, fn) {
+			sites++
+			k := fnDisplay(fn) + "|" + gs.Name
+			if seen[k] {
+				continue
+			}
+			seen[k] = true
+			r.add(rule, "site-audited|"+k, p.ipos(gs.In), "the conditions of `"+gs.Name+"` in "+row[0]+" are audited (rows in tables/guards.tsv)", have[k],
+				"the normaliser got an operation that was never audited: it may equate spellings that are not equivalent")
+		}
+		r.floor(rule, "operations of "+row[0], sites, 10)
+	}
 }
